@@ -15,6 +15,9 @@ import (
 func init() {
 	em := "internal/backends/compiler_wat/wir/instruction_emitter.go"
 	register(&Property{ID: "C01", Run: runC01, Mutants: []Mutant{
+		{Name: "next_rune accepts the surrogate range", File: "waroot/src/runtime/string.wa", Old: "\t\t\t} else if p0 == 0xED {\n\t\t\t\thi = 0x9F\n\t\t\t}\n", New: "\t\t\t}\n", Expect: "rune-decoder-agrees-with-go"},
+		{Name: "next_rune reads the continuation byte without looking at the length", File: "waroot/src/runtime/string.wa", Old: "\t\tif n >= 2 {\n", New: "\t\tif n >= 1 {\n", Expect: "rune-decoder-agrees-with-go"},
+		{Name: "next_rune ends the iteration at an invalid byte", File: "waroot/src/runtime/string.wa", Old: "\treturn true, iter.pos, RuneError, iter.pos + 1\n", New: "\treturn\n", Expect: "rune-decoder-agrees-with-go"},
 		{Name: "second byte of an i64 constant taken from bit 9", File: "internal/backends/compiler_wat/wir/value_basic.go", Old: "\t\tsi := uint64(int64(i))\n\t\tb[0] = byte(si & 0xFF)\n\t\tb[1] = byte((si >> 8) & 0xFF)", New: "\t\tsi := uint64(int64(i))\n\t\tb[0] = byte(si & 0xFF)\n\t\tb[1] = byte((si >> 9) & 0xFF)", Expect: "const-bytes :: I64: byte layout"},
 		{Name: "third byte of an f32 constant written twice", File: "internal/backends/compiler_wat/wir/value_basic.go", Old: "\t\tsi := math.Float32bits(float32(f))\n\t\tb[0] = byte(si & 0xFF)\n\t\tb[1] = byte((si >> 8) & 0xFF)\n\t\tb[2] = byte((si >> 16) & 0xFF)\n\t\tb[3] = byte((si >> 24) & 0xFF)", New: "\t\tsi := math.Float32bits(float32(f))\n\t\tb[0] = byte(si & 0xFF)\n\t\tb[1] = byte((si >> 8) & 0xFF)\n\t\tb[2] = byte((si >> 16) & 0xFF)\n\t\tb[2] = byte((si >> 24) & 0xFF)", Expect: "const-bytes :: F32: byte layout"},
 		{Name: "string ordering decodes runes again", File: "waroot/src/runtime/string.wa", Old: "\tfor i := 0; i < n; i++ {\n\t\tif x[i] < y[i] {\n\t\t\treturn -1\n\t\t} else if x[i] > y[i] {\n\t\t\treturn 1\n\t\t}\n\t}\n", New: "\ti1 := stringToIter(x)\n\ti2 := stringToIter(y)\n\tfor i := 0; i < n; i++ {\n\t\t_, _, v1, p1 := next_rune(i1)\n\t\ti1.pos = p1\n\t\t_, _, v2, p2 := next_rune(i2)\n\t\ti2.pos = p2\n\t\tif v1 < v2 {\n\t\t\treturn -1\n\t\t} else if v1 > v2 {\n\t\t\treturn 1\n\t\t}\n\t}\n", Expect: "string-order-bytewise"},
@@ -193,6 +196,7 @@ func runC01(c *Ctx) {
 	}
 	if std := LoadWaStd(c, "string-order-bytewise"); std != nil {
 		c01StringOrder(c, std)
+		c01RuneDecoder(c, std)
 	}
 	watPk := p.MustPkg("mnemonic-by-type", "internal/backends/compiler_wat/wir/wat")
 	wir := p.MustPkg("opcode-constructor", "internal/backends/compiler_wat/wir")
